@@ -19,6 +19,7 @@ import (
 	"reflect"
 	"sort"
 	"strconv"
+	"sync"
 	"sync/atomic"
 	"time"
 
@@ -60,9 +61,39 @@ type checker struct {
 	// (and `buf dep graph`) rely on that error to terminate, so they are not called on cyclic closures
 	// any more (a Go stack overflow is fatal and would lose the violation already recorded).
 	cycleErrorBroken atomic.Bool
+
+	// record (replay only) collects what was violated
+	recordMu sync.Mutex
+	record   map[string]string
+
+	start   time.Time
+	budget  time.Duration
+	soft    time.Time
+	softCut atomic.Bool
 }
 
-func (ck *checker) done() bool { return ck.stopEarly && ck.r.ViolationCount() > 0 }
+func (ck *checker) done() bool {
+	if ck.stopEarly && ck.r.ViolationCount() > 0 {
+		return true
+	}
+	if !ck.soft.IsZero() && time.Now().After(ck.soft) {
+		ck.softCut.Store(true)
+		return true
+	}
+	return false
+}
+
+// family runs one family under a soft deadline at the given fraction of the budget, so that a slow
+// machine cuts every family a little instead of starving the later ones.
+func (ck *checker) family(name string, fraction float64, f func()) {
+	ck.soft = ck.start.Add(time.Duration(float64(ck.budget) * fraction))
+	ck.softCut.Store(false)
+	f()
+	if ck.softCut.Load() {
+		ck.r.Incomplete(fmt.Sprintf("family %s: its share of the time budget (until %.0f%% of %s) was used up before all work items ran", name, fraction*100, ck.budget))
+	}
+	ck.soft = time.Time{}
+}
 
 func fromEnum(g enum.Digraph) Graph { return Graph{N: g.N, Adj: g.Adj} }
 
@@ -129,17 +160,25 @@ func run(r *evid.Run) {
 	if only != "" {
 		r.Incomplete("C10_ONLY=" + only + ": only one family was run")
 	}
+	ck.start = time.Now()
+	ck.budget = 150 * time.Second
+	if !r.Quick() {
+		ck.budget = 20 * time.Minute
+	}
+	if n, err := strconv.Atoi(os.Getenv("VERIF_BUDGET_S")); err == nil {
+		ck.budget = time.Duration(n) * time.Second
+	}
 	if only == "" || only == "graphs" {
-		ck.familyGraphs(maxN)
+		ck.family("graphs", 0.48, func() { ck.familyGraphs(maxN) })
 	}
 	if only == "" || only == "layouts" {
-		ck.familyLayouts(min(maxN, 3))
+		ck.family("layouts", 0.58, func() { ck.familyLayouts(min(maxN, 3)) })
 	}
 	if only == "" || only == "plants" {
-		ck.familyPlants(maxN)
+		ck.family("plants", 0.76, func() { ck.familyPlants(maxN) })
 	}
 	if only == "" || only == "cli" {
-		ck.familyCLI(min(maxN, 3))
+		ck.family("cli", 1.0, func() { ck.familyCLI(min(maxN, 3)) })
 	}
 
 	c := &ck.c
@@ -345,6 +384,12 @@ func wantImage(r *evid.Run, s Spec, t Target) bool {
 func (ck *checker) violate(sig, what string, b *Built, t Target, c Case) {
 	c.Spec, c.Target = b.Spec, t
 	c.Files = b.Files
+	if ck.record != nil {
+		ck.recordMu.Lock()
+		ck.record[sig] = what
+		ck.recordMu.Unlock()
+		return
+	}
 	ck.r.Violate(sig, what, c)
 }
 
